@@ -14,6 +14,9 @@
 (*                   AddBlocks as a header, rejected when a reorg applies it*)
 (*            "hdr"  rejected at submission (consensus.ValidateOrphan)     *)
 (*            "orphan" parent unknown to the oracle                        *)
+(*   T.id   the name under which the block's ID is known: itself, except   *)
+(*          for a "variant" -- a block that carries the id of another block*)
+(*          with different content (a v2 id does not cover the payout)     *)
 (*   T.lo, T.hi  integer ranks with                                        *)
 (*            a sufficiently heavier than b  <=>  lo[a] > hi[b]            *)
 (*          (core State.SufficientlyHeavierThan: TotalWork(a) >            *)
@@ -46,13 +49,15 @@ PathSeq(T, base, top) == IF top = base \/ top = G THEN <<>> ELSE Append(PathSeq(
 
 Range(s) == {s[i] : i \in DOMAIN s}
 
-Linked(T, bs) == \A i \in 2..Len(bs) : T.par[bs[i]] = bs[i - 1]
+\* linkage is by block id
+Linked(T, bs) == \A i \in 2..Len(bs) : T.par[bs[i]] = T.id[bs[i - 1]]
+Ids(T, bs) == {T.id[bs[i]] : i \in DOMAIN bs}
 
 \* index of the first block of bs that AddBlocks refuses at submission (0: none):
 \* a block of class hdr/orphan, or one whose parent state is missing
 FirstRefused(T, known, bs) ==
     LET bad(i) == \/ T.cls[bs[i]] \in {"hdr", "orphan"}
-                  \/ T.par[bs[i]] \notin (known \cup {bs[j] : j \in 1..(i - 1)})
+                  \/ T.par[bs[i]] \notin (known \cup {T.id[bs[j]] : j \in 1..(i - 1)})
         S == {i \in DOMAIN bs : bad(i)}
     IN IF S = {} THEN 0 ELSE CHOOSE i \in S : \A j \in S : i <= j
 
@@ -64,8 +69,8 @@ AddBlocksRes(T, known, tip, bs) ==
     LET r == FirstRefused(T, known, bs)
         n == Len(bs)
     IN IF n = 0 THEN [known |-> known, tip |-> tip, err |-> FALSE]
-       ELSE IF r > 0 THEN [known |-> known \cup {bs[j] : j \in 1..(r - 1)}, tip |-> tip, err |-> TRUE]
-       ELSE LET k2 == known \cup Range(bs)
+       ELSE IF r > 0 THEN [known |-> known \cup {T.id[bs[j]] : j \in 1..(r - 1)}, tip |-> tip, err |-> TRUE]
+       ELSE LET k2 == known \cup Ids(T, bs)
                 last == bs[n]
             IN IF Suff(T, last, tip)
                  THEN IF \A x \in Above(T, last, AncSet(T, tip)) : T.cls[x] = "ok"
@@ -79,7 +84,7 @@ AddValidatedRes(T, known, tip, bs) ==
     LET n == Len(bs)
     IN IF n = 0 THEN [known |-> known, tip |-> tip, err |-> FALSE]
        ELSE IF T.par[bs[1]] \notin known THEN [known |-> known, tip |-> tip, err |-> TRUE]
-       ELSE LET k2 == known \cup Range(bs)
+       ELSE LET k2 == known \cup Ids(T, bs)
                 last == bs[n]
             IN IF Suff(T, last, tip)
                  THEN IF \A x \in Above(T, last, AncSet(T, tip)) \ Range(bs) : T.cls[x] = "ok"
